@@ -64,7 +64,8 @@ def run(ctx):
         "distinct_nontrivial": sum(1 for c in rows if c["mode"] == "strings" and 34 in c["tail"]) + sum(1 for c in rows if c["mode"] == "struct" and c["chain"]),
         "rule": "structure: chains x forests of the TLC model on the real Logger (inside derivation trees); values: %d records over 24 value kinds "
                 "(TextMarshaler ok/failing, error, []byte, AnsiString, LogValuer, NaN, forged-field and newline strings ...) x 3 positions x addSource; "
-                "strings: every 1-byte string, 2-byte strings (%s), Unicode scalars (%s) as msg / key / value / With value / group name; "
+                "strings: every 1-byte string, 2-byte strings (%s), Unicode scalars (%s) as msg / key / value / With value / group name / outer group of a chain / group attribute / key in a group; "
+                "explicit record times in and out of order; call sites in files with unusual names (source on); "
                 "non-trivial = string cases the handler had to quote + structures with a derivation chain"
                 % (sum(1 for c in rows if c["mode"] == "values"), "first byte from 23 class representatives" if q else "all 65536",
                    "White_Space / boundary set + 6000 seeded" if q else "all 1112064"),
